@@ -39,8 +39,10 @@ SYMBOLS = [
     ("burst", (1, 160, 0.0, "A")),
     ("report", None),
     ("other-ssrc", (1, 160, 0.020, "B")),
+    ("ts-back", (1, -320, 0.020, "A")),      # in sequence order, timestamp steps backwards (frames sent in decode order)
 ]
 NAMES = [n for n, _ in SYMBOLS]
+STAT_NAMES = [n for n in NAMES if n != "other-ssrc"]
 SYM = dict(SYMBOLS)
 
 
@@ -282,7 +284,7 @@ def stats_tree(task):
     try:
         def rec(st, ref, hi, now, d):
             nonlocal nodes
-            for name in (NAMES[:13] if (d > 0 or firsts is None) else firsts):
+            for name in (STAT_NAMES if (d > 0 or firsts is None) else firsts):
                 sym = SYM[name]
                 st2 = copy.copy(st)
                 ref2 = copy.copy(ref)
@@ -357,11 +359,11 @@ def run(tier, seed):
     total = pmap("props.c18", "receiver_tree", tasks, seed=seed)
     hist_n = total.evaluations
     sdepth = 7 if thorough else 6
-    st = pmap("props.c18", "stats_tree", [(sdepth, s, t, [f]) for (s, t) in STARTS[:2 if not thorough else 4] for f in NAMES[:13]], seed=seed)
+    st = pmap("props.c18", "stats_tree", [(sdepth, s, t, [f]) for (s, t) in STARTS[:2 if not thorough else 4] for f in STAT_NAMES], seed=seed)
     total.merge(st)
     return result(
         PID, total,
-        rule="complete tree of histories over 14 symbols (new frame, same timestamp, 1/4 lost, duplicate, late by 1/3, +300 and "
+        rule="complete tree of histories over 15 symbols (in-order packet with the timestamp stepping backwards, new frame, same timestamp, 1/4 lost, duplicate, late by 1/3, +300 and "
              "+32767 sequence jumps, arrival clock jumping back 1 s, timestamp jump, burst, report timer fires, packet of a second "
              "SSRC) to depth %s from start (sequence, timestamp) in {65534,0} x {2^32-500,0}; each history replayed on a fresh real "
              "RTCRtpReceiver whose _run_rtcp task emits the report through a transport stand-in; every emitted report block "
